@@ -65,6 +65,13 @@ CHECKS = {
             'before/after each run.',
             'Snapshot covers the sandbox directory only (image, destination, sibling, canary); libc tmpfile() is outside it.',
             'bounded-exhaustive enumeration of hostile catalogues with before/after file-tree differencing'),
+    'C10': ('exploration', '4 C10',
+            'X vs X.gz through every command for every container x geometry x catalogue total x variant, gzip levels 0-9, '
+            '1-3 members cut at every 256-byte boundary, compressed size swept over every residue mod 512 (FNAME field), '
+            'decompressed sizes around the 1024-byte output buffer; fault enumeration over every truncation length and '
+            'every single-bit flip of a small .gz against a reference inflater.',
+            'Python zlib is the reference inflater; a valid member followed by extra bytes only has to not crash.',
+            'bounded-exhaustive differential exploration (X vs gzip(X)) plus exhaustive single-fault enumeration of the stream'),
 }
 
 NA_REASON = 'check not built yet (work in progress; see DESIGN.md section 4)'
